@@ -224,10 +224,13 @@ def check_version(f, rep):
             rep.check(mech, "R04.1", "R04.1|greeting|mechanism", "greeting accepted only with a known mechanism (try_from decided Ok)", b.loc())
         rep.floor("R04.1", "Ok exits of the greeting parser", n, 1)
     ge = [b for b in [hs.co(f, "greet")] if b is not None]
+    in_driver = not ge and hs.greeting_in_driver(f)
+    if in_driver:
+        ge = [hs.co(f, "driver")]       # the driver exchanges the greetings itself
     rep.floor("R04.1", "greeting exchange", len(ge), 1)
     for b in ge:
         n = 0
-        for p in pathq.paths(f, b):
+        for p in (hs.driver_paths(f, b) if in_driver else pathq.paths(f, b)):
             if p.end != "return" or p.ret is None:
                 continue
             if pathq.ret_kind(p) == "Err":
@@ -352,12 +355,18 @@ def check_gate(f, rep):
     for path in callers:
         b = f.body(path)
         n = 0
-        for p in pathq.paths(f, b):
+        for p in (hs.driver_paths(f, b) if drv is not None and b.path == drv.path else pathq.paths(f, b)):
             for i, ev in pathq.calls(p, "peer_connected"):
                 if not (ev.fn and (ev.fn.get("trait") or "").endswith("MultiPeerBackend")):
                     continue
                 n += 1
                 g = pathq.ok_decided(p, lambda x: hs.is_poll_of_role(f, x, "greet"), ev.ncond)
+                in_driver = hs.greeting_in_driver(f)
+                if in_driver:
+                    # no separate greeting exchange: the version decision on the Greeting item read from the peer gates the path
+                    pre = type("Prefix", (), {"conds": p.conds[:ev.ncond]})()
+                    g_, cmp_ok, _txt = version_decision(pre)
+                    g = g_ and cmp_ok and any(pathq.is_poll(e2) and "Next" in e2.name for e2 in p.events[:i])
                 r = pathq.ok_decided(p, lambda x: hs.is_poll_of_role(f, x, "ready"), ev.ncond)
                 rep.check(g, "R04.1", "R04.1|gate|greeting-ok", "registration only after the greeting exchange was decided Ok", b.loc(ev.bb))
                 rep.check(r, "R04.1", "R04.1|gate|ready-ok", "registration only after the READY exchange was decided Ok", b.loc(ev.bb))
@@ -367,6 +376,13 @@ def check_gate(f, rep):
                 rep.check(from_ready, "R04.1", "R04.1|gate|identity-provenance", "the peer is registered under the identity the READY exchange returned", b.loc(ev.bb))
                 roles = {hs.anchors(f).get("greet"): "greeting", hs.anchors(f).get("ready"): "ready"}
                 order = [roles[e.name] for _, e in pathq.calls(p, upto=i) if e.name in roles]
+                if in_driver:
+                    first_ready = next((e for _, e in pathq.calls(p, upto=i) if roles.get(e.name) == "ready"), None)
+                    if first_ready is not None:
+                        pre = type("Prefix", (), {"conds": p.conds[:first_ready.ncond]})()
+                        g_, cmp_ok, _txt = version_decision(pre)
+                        if g_ and cmp_ok:
+                            order = ["greeting"] + order
                 rep.check(order[:2] == ["greeting", "ready"], "R04.1", "R04.1|gate|order", "greeting exchange precedes READY exchange precedes registration (%s)" % order, b.loc(ev.bb))
         rep.floor("R04.1", "registration events on driver paths", n, 1)
         # no leak of the rejected connection
